@@ -165,6 +165,7 @@ VA:
 						}
 						if !present {
 							resp <- VarAns{ANS_OK, guessed}
+							verifPoint("assigner.notify")
 							useditem <- UsageNotify{TR_PROC, rproc, C_REGSIZE, S_NIL, i + 1}
 							busylist[rproc] = append(busylist[rproc], guessed)
 							created = true
@@ -193,6 +194,7 @@ VA:
 						}
 						if !present {
 							resp <- VarAns{ANS_OK, guessed}
+							verifPoint("assigner.notify")
 							useditem <- UsageNotify{TR_PROC, rproc, C_REGSIZE, S_NIL, i + 1}
 							busylist[rproc] = append(busylist[rproc], guessed)
 							created = true
@@ -226,6 +228,7 @@ VA:
 						}
 						if !present {
 							resp <- VarAns{ANS_OK, guessed}
+							verifPoint("assigner.notify")
 							useditem <- UsageNotify{TR_PROC, rproc, C_RAMSIZE, S_NIL, i + 1}
 							busylist[rproc] = append(busylist[rproc], guessed)
 							created = true
@@ -255,6 +258,7 @@ VA:
 						}
 						if !present {
 							resp <- VarAns{ANS_OK, guessed}
+							verifPoint("assigner.notify")
 							useditem <- UsageNotify{TR_PROC, rproc, C_RAMSIZE, S_NIL, i + 1}
 							busylist[rproc] = append(busylist[rproc], guessed)
 							created = true
@@ -315,6 +319,7 @@ VA:
 								resp <- VarAns{ANS_OK, guessed}
 								// Only in the IO is inittializated its use has to be notified
 								if rcell.Global_id != 0 {
+									verifPoint("assigner.notify")
 									useditem <- UsageNotify{TR_PROC, rproc, C_INPUT, S_NIL, rcell.Global_id}
 								}
 								busylist[rproc] = append(busylist[rproc], guessed)
@@ -380,6 +385,7 @@ VA:
 								resp <- VarAns{ANS_OK, guessed}
 								// Only in the IO is inittializated its use has to be notified
 								if rcell.Global_id != 0 {
+									verifPoint("assigner.notify")
 									useditem <- UsageNotify{TR_PROC, rproc, C_OUTPUT, S_NIL, rcell.Global_id}
 								}
 								busylist[rproc] = append(busylist[rproc], guessed)
@@ -416,6 +422,7 @@ VA:
 							readers := make([]int, 0)
 							writers := make([]int, 0)
 							busychan = append(busychan, ChanInfo{guessed_global_id, connected, readers, writers})
+							verifPoint("assigner.notify")
 							useditem <- UsageNotify{TR_CHAN, guessed_global_id, C_CONNECTED, S_NIL, rproc}
 							created = true
 							break
@@ -434,8 +441,10 @@ VA:
 							}
 							if !present {
 								resp <- VarAns{ANS_OK, guessed}
+								verifPoint("assigner.notify")
 								useditem <- UsageNotify{TR_PROC, rproc, C_SHAREDOBJECT, "channel:", I_NIL}
 								busylist[rproc] = append(busylist[rproc], guessed)
+								verifPoint("assigner.notify")
 								useditem <- UsageNotify{TR_CHAN, guessed_global_id, C_CONNECTED, S_NIL, rproc}
 								created = true
 								break
@@ -470,6 +479,7 @@ VA:
 							readers := make([]int, 0)
 							writers := make([]int, 0)
 							busychan = append(busychan, ChanInfo{guessed_global_id, connected, readers, writers})
+							verifPoint("assigner.notify")
 							useditem <- UsageNotify{TR_CHAN, guessed_global_id, C_CONNECTED, S_NIL, rproc}
 							created = true
 							break
@@ -488,8 +498,10 @@ VA:
 							}
 							if !present {
 								resp <- VarAns{ANS_OK, guessed}
+								verifPoint("assigner.notify")
 								useditem <- UsageNotify{TR_PROC, rproc, C_SHAREDOBJECT, "channel:", I_NIL}
 								busylist[rproc] = append(busylist[rproc], guessed)
+								verifPoint("assigner.notify")
 								useditem <- UsageNotify{TR_CHAN, guessed_global_id, C_CONNECTED, S_NIL, rproc}
 								created = true
 								break
@@ -525,9 +537,11 @@ VA:
 						}
 						if !present {
 							resp <- VarAns{ANS_OK, guessed}
+							verifPoint("assigner.notify")
 							useditem <- UsageNotify{TR_PROC, rproc, C_SHAREDOBJECT, "channel:", I_NIL}
 							busylist[rproc] = append(busylist[rproc], guessed)
 							busychan[guessed_global_id].Connected = append(busychan[guessed_global_id].Connected, rproc)
+							verifPoint("assigner.notify")
 							useditem <- UsageNotify{TR_CHAN, guessed_global_id, C_CONNECTED, S_NIL, rproc}
 							created = true
 							break
@@ -555,9 +569,11 @@ VA:
 						}
 						if !present {
 							resp <- VarAns{ANS_OK, guessed}
+							verifPoint("assigner.notify")
 							useditem <- UsageNotify{TR_PROC, rproc, C_SHAREDOBJECT, "channel:", I_NIL}
 							busylist[rproc] = append(busylist[rproc], guessed)
 							busychan[guessed_global_id].Connected = append(busychan[guessed_global_id].Connected, rproc)
+							verifPoint("assigner.notify")
 							useditem <- UsageNotify{TR_CHAN, guessed_global_id, C_CONNECTED, S_NIL, rproc}
 							created = true
 							break
